@@ -83,6 +83,26 @@ def run_history(case, props=None):
         import warnings
         cells = [(x, y, z) for z, y, x in itertools.product(range(d), range(h), range(w))][:6]
         env.add_cell_component('c', [100 + i for i in range(ncells)])
+        # component names are arbitrary strings: adding / re-adding / removing them must leave the position table alone
+        for nm in ('deposit', 'position', 'po', 's'):
+            try:
+                env.add_cell_component(nm, [7] * ncells)
+                env.add_cell_component(nm, [8 + i for i in range(ncells)])      # same name again: replaces
+                x0, y0, z0 = cells[-1]
+                v = env.get_cell(x0, y0, z0)[nm]
+                if getattr(v, 'shape', ()) not in ((), None) or int(v) != 8 + oracle_id(x0, y0, z0, W, H, D):
+                    out.append(('C09', f'after adding {nm!r} twice get_cell{(x0, y0, z0)}[{nm!r}] = {v!r:.60}, the table '
+                                       f'holds one value {8 + oracle_id(x0, y0, z0, W, H, D)}'))
+                env.remove_cell_component(nm)
+                pos_now = [tuple(p) for p in env.cells['pos']]
+                if pos_now != [(x, y, z) for z, y, x in itertools.product(range(d), range(h), range(w))]:
+                    out.append(('C09', f'after removing {nm!r} the position table changed'))
+                if 'c' not in env.cells.columns:
+                    out.append(('C09', f'removing {nm!r} also removed component c'))
+            except Exception as ex:
+                out.append(('C09', f'add/re-add/remove of cell component {nm!r} on {wk} {W, H, D}: {type(ex).__name__}: {ex}'))
+            if out:
+                return out
         for (x, y, z) in cells:
             i = oracle_id(x, y, z, W, H, D)
             try:
@@ -116,7 +136,7 @@ def run_history(case, props=None):
         elif rep == 'tuple':
             centre = centre_t
         else:
-            fr = 0.5 if rep == 'compfrac' else 0.0
+            fr = 0.5 if rep == 'compfrac' else (0.9999999 if rep == 'compnear' else 0.0)
             centre = E.PositionComponent(None, env.model, cx + fr, cy + fr, cz + fr)
         exp = []
         for z, y, x in itertools.product(range(d), range(h), range(w)):
@@ -252,7 +272,7 @@ def histories(seed, budget, prop='C09'):
                 for (cx, cy, cz) in {(0, 0, 0), (w - 1, h - 1, d - 1), (w // 2, h // 2, d // 2)}:
                     for radius in (0, 1, 2, 7):
                         for incl in (False, True):
-                            rep = ('id', 'tuple', 'comp', 'compfrac')[n % 4]
+                            rep = ('id', 'tuple', 'comp', 'compfrac', 'compnear')[n % 5]
                             if s[0] != 'discrete' and rep == 'id':
                                 pass
                             n += 1
@@ -261,7 +281,7 @@ def histories(seed, budget, prop='C09'):
             W, H, D = rng.randint(0, 5), rng.randint(0, 5), rng.randint(0, 4)
             w, h, d = dims(W, H, D)
             yield ('nbr', 'discrete', W, H, D, rng.choice(['moore', 'neumann']), rng.randrange(w), rng.randrange(h),
-                   rng.randrange(d), rng.randint(0, 6), rng.random() < 0.5, rng.choice(['id', 'tuple', 'comp', 'compfrac']))
+                   rng.randrange(d), rng.randint(0, 6), rng.random() < 0.5, rng.choice(['id', 'tuple', 'comp', 'compfrac', 'compnear']))
     else:
         srcs = ['callable', 'list', 'array', 'const', 'lookup']
         for s in [x for x in SHAPES if x[1] <= 3 and x[2] <= 2 and x[3] <= 2]:
@@ -271,3 +291,4 @@ def histories(seed, budget, prop='C09'):
             for a, b in itertools.permutations(srcs, 2):
                 # the same name added again replaces the component (one column, the new values)
                 yield ('cells',) + s + ([('add', 'p', a), ('add', 'q', a), ('add', 'p', b), ('remove', 'p'), ('remove', 'p')],)
+                yield ('cells',) + s + ([('add', 'deposit', a), ('add', 'po', b), ('remove', 'deposit'), ('remove', 'po')],)
